@@ -107,8 +107,8 @@ extern "C" cudaError_t cudaFree(void *p)
     Guard g;
     if (!p)
         return cudaSuccess;
-    if (inject())
-        return cudaErrorInvalidValue;
+    // no injection here: a failing cudaFree inside a destructor is a sticky
+    // device error in practice, not a recoverable fault covfie is expected to survive
     auto &b = blocks();
     auto it = b.find(p);
     if (it == b.end()) {
